@@ -21,16 +21,17 @@ Definition finding_good (f : finding) : Prop :=
 (* ---------- the decidable check of one construction site ---------- *)
 Definition has_lit (parts : list mpart) : bool :=
   existsb (fun p => match p with MLit s => negb (String.eqb s "") | MVar _ => false end) parts.
-Definition tr_bound (keys : list string) (tr : trsrc) : bool :=
+Definition tr_bound (n : nat) (tr : trsrc) : bool :=
   match tr with
   | TrNone => true
-  | TrSrc s => mem_str s keys
-  | TrTuple l => forallb (fun s => mem_str s keys) l
+  | TrRef k => k <? n
+  | TrTuple l => forallb (fun k => k <? n) l
+  | TrOther _ => false
   end.
-Definition site_check (cls : string) (idx : nat) (aname sev : string) (keys : list string) : bool :=
+Definition site_check (cls : string) (idx : nat) (aname sev : string) (nenv : nat) : bool :=
   match find_site cls idx report_sites with
   | Some (sev', (Some an', (Some parts, tr))) =>
-      String.eqb sev' sev && String.eqb an' aname && has_lit parts && tr_bound keys tr &&
+      String.eqb sev' sev && String.eqb an' aname && has_lit parts && tr_bound nenv tr &&
       match sev_of_name sev with Some _ => true | None => false end
   | _ => false
   end.
@@ -57,22 +58,21 @@ Proof.
   cbn in E. subst s. discriminate.
 Qed.
 
-Lemma assoc_bound {A} s : forall (env : list (string * A)),
-  mem_str s (map fst env) = true -> exists b, assoc_str s env = Some b.
+Lemma nth_bound (env : benv) k : (k <? List.length env) = true -> exists b, nth_error env k = Some b.
 Proof.
-  induction env as [|[k v] r IH]; cbn; [discriminate|].
-  destruct (String.eqb s k); [eauto | exact IH].
+  intros H. apply Nat.ltb_lt in H. destruct (nth_error env k) eqn:E; [eauto|].
+  apply nth_error_None in E. lia.
 Qed.
 
-Lemma bind_all_bound env : forall srcs,
-  forallb (fun s => mem_str s (map fst env)) srcs = true -> exists l, bind_all env srcs = Some l.
+Lemma bind_all_bound (env : benv) : forall ks,
+  forallb (fun k => k <? List.length env) ks = true -> exists l, bind_all env ks = Some l.
 Proof.
-  induction srcs as [|x r IH]; cbn; [eauto|]. intros H. apply andb_true_iff in H. destruct H as [Hx Hr].
-  destruct (assoc_bound x env Hx) as (b & ->). destruct (IH Hr) as (l & ->). eauto.
+  induction ks as [|x r IH]; cbn; [eauto|]. intros H. apply andb_true_iff in H. destruct H as [Hx Hr].
+  destruct (nth_bound env x Hx) as (b & ->). destruct (IH Hr) as (l & ->). eauto.
 Qed.
 
 Lemma mkF_good cls idx aname sev tt env :
-  site_check cls idx aname sev (map fst env) = true -> finding_good (mkF cls idx aname sev tt env).
+  site_check cls idx aname sev (List.length env) = true -> finding_good (mkF cls idx aname sev tt env).
 Proof.
   unfold site_check, finding_good, mkF, site_message, site_trigger. cbn [f_sev f_msg f_trig f_site f_analysis fst snd].
   destruct (find_site cls idx report_sites) as [[sev' [[an'|] [[parts|] tr]]]|]; try discriminate.
@@ -82,10 +82,11 @@ Proof.
   split; [destruct (sev_of_name sev); [discriminate | discriminate] |].
   split; [eexists; split; [reflexivity | apply message_nonempty; assumption] |].
   split; [| eauto].
-  destruct tr as [|src|srcs]; cbn [tr_bound] in *.
+  destruct tr as [|k|ks|src]; cbn [tr_bound] in *.
   - reflexivity.
-  - match goal with X : mem_str src _ = true |- _ => destruct (assoc_bound src env X) as (b & ->) end. reflexivity.
-  - match goal with X : forallb _ srcs = true |- _ => destruct (bind_all_bound env srcs X) as (l & ->) end. reflexivity.
+  - match goal with X : (k <? _) = true |- _ => destruct (nth_bound env k X) as (b & ->) end. reflexivity.
+  - match goal with X : forallb _ ks = true |- _ => destruct (bind_all_bound env ks X) as (l & ->) end. reflexivity.
+  - discriminate.
 Qed.
 
 Ltac site := apply mkF_good; vm_compute; reflexivity.
